@@ -683,7 +683,7 @@ Proof.
   destruct (parse_accept (rq_accept rq)) as [specs|]; [|cbn; repeat split; discriminate].
   destruct (serve _ _ _ _ _ _ _) as [pk ct | r].
   - destruct pk; cbn; repeat split; discriminate.
-  - destruct (o_error r) as [e|]; [destruct (Nat.eqb e 406) | destruct (o_producer r)]; cbn; repeat split; discriminate.
+  - destruct (o_error r) as [e|]; [destruct (Nat.eqb e 406) | destruct (o_producer r); [|destruct (is_head o)]]; cbn; repeat split; discriminate.
 Qed.
 
 (* stronger: such a request runs the handler and is answered 200 through a producer, or Respond finds no producer at all
@@ -715,6 +715,21 @@ Proof.
   - destruct (rt_produces rt); rewrite E; destruct (route_or_default _ _ _ _); [left | right | left | right]; eauto.
 Qed.
 
+(* the answer to HEAD: status and headers only, whatever producers there are *)
+Lemma serve_head_outcome dflt registered rt specs :
+  rt_has_op rt = true -> rt_codes rt = [200] ->
+  (negotiate_content_type specs (rt_produces rt) [] = [] -> rt_produces rt = []) ->
+  exists fmt, serve dflt registered rt specs true NoAuth DValue = Responded (mkresp fmt 200 None None None None).
+Proof.
+  intros Hop Hc Hn. unfold serve, serve_validated.
+  assert (serve_respond dflt registered rt specs true None [] DValue =
+          Responded (mkresp (response_format None specs (respond_offers dflt (rt_produces rt))) 200 None None None None)) as E.
+  { unfold serve_respond, respond. rewrite Hop, Hc. reflexivity. }
+  destruct (negotiate_content_type specs (rt_produces rt) []) eqn:F.
+  - rewrite (Hn eq_refl). rewrite E. eauto.
+  - destruct (rt_produces rt); rewrite E; eauto.
+Qed.
+
 Theorem validated_wf_request_served regs d o rq :
   validate (build_api regs) d = None -> In o (g_ops d) -> simple_desc d = true ->
   wf_base (g_base d) = true -> wf_template (op_path o) = true ->
@@ -733,15 +748,51 @@ Proof.
     destruct (consumer_available regs d o _ V Ho S Wct) as [C1 C2]. now rewrite C1, C2. }
   rewrite B1, B2. unfold accept_ok in Wa.
   destruct (parse_accept (rq_accept rq)) as [specs|]; [|discriminate Wa].
-  destruct (serve_value_outcomes (a_default (build_api regs)) (a_producers (build_api regs)) (route_of (build_api regs) d o) specs)
-    as [[fmt [p E]] | [fmt E]]; try reflexivity.
+  assert (negotiate_content_type specs (rt_produces (route_of (build_api regs) d o)) [] = [] ->
+          rt_produces (route_of (build_api regs) d o) = []) as HN.
+  { intros F. destruct (rt_produces (route_of (build_api regs) d o)) as [|p ps] eqn:EP; [reflexivity|]. exfalso.
+    assert (p <> []) as Hp by (apply (route_produces_nonempty regs d o); [assumption | assumption | rewrite EP; now left]).
+    destruct specs as [|sp specs'].
+    + cbn in F. contradiction.
+    + cbn [is_nil orb] in Wa. rewrite F in Wa. discriminate Wa. }
+  destruct (is_head o) eqn:HD.
+  - destruct (serve_head_outcome (a_default (build_api regs)) (a_producers (build_api regs)) (route_of (build_api regs) d o) specs)
+      as [fmt E]; try reflexivity; [exact HN|].
+    left. rewrite E. cbn. eauto.
+  - destruct (serve_value_outcomes (a_default (build_api regs)) (a_producers (build_api regs)) (route_of (build_api regs) d o) specs)
+      as [[fmt [p E]] | [fmt E]]; try reflexivity; [exact HN| |].
+    + left. rewrite E. cbn. eauto.
+    + right. rewrite E. reflexivity.
+Qed.
+
+(* a declared HEAD operation of a validated API: a well-formed request runs the handler and is answered without a body,
+   and never fails for lack of a producer (F-C19-1 does not concern HEAD) *)
+Theorem validated_head_served regs d o rq :
+  validate (build_api regs) d = None -> In o (g_ops d) -> simple_desc d = true ->
+  wf_base (g_base d) = true -> wf_template (op_path o) = true ->
+  wf_request (build_api regs) d o rq = true -> is_head o = true ->
+  exists ct, serve_request (build_api regs) d o rq = mkres 0 ct [].
+Proof.
+  intros V Ho S Wb Wt W HD. pose proof W as W0. unfold wf_request in W. apply Bool.andb_true_iff in W. destruct W as [W Wa].
+  apply Bool.andb_true_iff in W. destruct W as [Wc Wct].
+  unfold serve_request. rewrite (validated_routes _ d o V Ho Wb Wt). cbn [negb].
+  unfold own_template. rewrite (route_template_recovered d o Wb Wt), bytes_eqb_refl. cbn [negb].
+  rewrite (auth_passes_covered _ d o _ V Ho Wc). cbn [negb].
+  assert ((negb (is_nil (rq_ct rq)) && negb (content_admitted (route_consumes_of (build_api regs) d o) (media_type_of (rq_ct rq))) = false) /\
+          (negb (is_nil (rq_ct rq)) && negb (consumer_found (build_api regs) (route_consumes_of (build_api regs) d o) (media_type_of (rq_ct rq))) = false)) as [B1 B2].
+  { destruct (is_nil (rq_ct rq)); [now split|]. cbn [orb] in Wct. cbn [negb andb].
+    destruct (consumer_available regs d o _ V Ho S Wct) as [C1 C2]. now rewrite C1, C2. }
+  rewrite B1, B2. unfold accept_ok in Wa.
+  destruct (parse_accept (rq_accept rq)) as [specs|]; [|discriminate Wa].
+  rewrite HD.
+  destruct (serve_head_outcome (a_default (build_api regs)) (a_producers (build_api regs)) (route_of (build_api regs) d o) specs)
+    as [fmt E]; try reflexivity.
   - intros F. destruct (rt_produces (route_of (build_api regs) d o)) as [|p ps] eqn:EP; [reflexivity|]. exfalso.
     assert (p <> []) as Hp by (apply (route_produces_nonempty regs d o); [assumption | assumption | rewrite EP; now left]).
     destruct specs as [|sp specs'].
     + cbn in F. contradiction.
     + cbn [is_nil orb] in Wa. rewrite F in Wa. discriminate Wa.
-  - left. rewrite E. cbn. eauto.
-  - right. rewrite E. reflexivity.
+  - rewrite E. cbn. eauto.
 Qed.
 
 (* the hypotheses are satisfiable: a validated API with two alternative requirements, a request in mixed case with a
@@ -760,4 +811,14 @@ Example ex_wf_request :
   wf_request (build_api ex_regs2) ex_desc2 (mkop ex_post ex_path_a [] [] None) ex_rq = true /\
   serve_one (build_api ex_regs2) ex_desc2 ex_rq = mkres 0 ex_text ex_text /\
   rs_outcome (serve_one (build_api ex_regs2) ex_desc2 (mkreq 0 ex_ct_mixed [ex_text] [])) = 7.
+Proof. vm_compute. repeat split; reflexivity. Qed.
+
+(* HEAD, registered under a capitalised spelling, nothing produced and no default producer: validated, routed, the handler
+   runs and the body-less answer needs no producer (the same description with GET is F-C19-1) *)
+Definition ex_head_spelt : bytes := [72; 101; 97; 100].   (* Head *)
+Definition ex_desc_head : desc := mkdesc [] [] [] [] [] [mkop HEAD_M ex_path_a [] [] None].
+Example ex_head_request :
+  validate (build_api [RWithoutJSON; ROperation ex_head_spelt ex_path_a]) ex_desc_head = None /\
+  wf_request (build_api [RWithoutJSON; ROperation ex_head_spelt ex_path_a]) ex_desc_head (mkop HEAD_M ex_path_a [] [] None) (mkreq 0 [] [] []) = true /\
+  serve_one (build_api [RWithoutJSON; ROperation ex_head_spelt ex_path_a]) ex_desc_head (mkreq 0 [] [] []) = mkres 0 [] [].
 Proof. vm_compute. repeat split; reflexivity. Qed.
